@@ -6,8 +6,10 @@ import numpy as np
 
 import vlib
 from vlib import rlit
+from harness import c09x
 
-GEN = ['SkyCoords', 'Regions']
+GEN = ['SkyCoords', 'Regions'] + c09x.GEN_EXTRA
+EXTRA_TARGETS = c09x.EXTRA_TARGETS
 LEVEL = 'proof'
 K_ALLOWED = 3.0
 TRUSTED = [
@@ -34,6 +36,9 @@ ASSUMPTIONS = [
     'library hypotheses hold on the sampled inputs only; measured overshoot of inclusive queries is reported (k_disc, k_poly)',
     'binary64 round-off of each compared conversion is bounded by 1e-14 absolute (values are O(1) .. O(360))',
 ]
+
+TRUSTED = TRUSTED + c09x.TRUSTED_EXTRA
+ASSUMPTIONS = ASSUMPTIONS + c09x.ASSUMPTIONS_EXTRA
 
 HEADER = ("From Coq Require Import Reals ZArith Bool List.\nFrom Interval Require Import Tactic.\n"
           "From Aegean Require Import Lib.RBase Gen.SkyCoords Model.RegionModel Model.SkyCoords.\n"
@@ -783,9 +788,13 @@ def run(ctx, model_ok=True):
     ctx.oblige(f'property oracle: {nc} circles and {npoly} convex polygons on the real Region (coverage, tightness, NaN, area, '
                f'degin, scalar/vector) and {nconv} sky2vec / vec2sky conversions', nviol == 0, f'{nviol} shapes violate the property')
     ctx.notes.append(f'oracle time {time.time() - t0:.1f}s')
+    c09x.run_extra(ctx, model_ok)
 
 
 def search(ctx):
+    extra = c09x.search_extra(ctx)
+    if extra:
+        return extra
     rng = ctx.rng
     t0 = time.time()
     while time.time() - t0 < 60:
@@ -807,6 +816,8 @@ def replay(ctx, obj):
         for b in obj.get('broken', []):
             print('  ', b.get('what'), str(b.get('detail', b.get('case', '')))[:400])
         return 1
+    if fi.get('kind') in ('ds9', 'regfile', 'mask', 'circles'):
+        return c09x.replay_extra(ctx, fi)
     if fi.get('kind') in ('circle', 'poly', 'convert'):
         p = {k: v for k, v in fi.items() if k not in ('what', 'probe', 'distance', 'area', 'seed')}
         m = problem(p, fi.get('seed', 0))
